@@ -8,6 +8,7 @@
 -/
 import DiskfsModel.Proofs.GptCrash
 import DiskfsModel.Proofs.GptWhole
+import DiskfsModel.Proofs.GptCrashFlat
 import DiskfsModel.Generated.GptCrash
 namespace Diskfs.GptCrash.C09
 
@@ -155,6 +156,160 @@ theorem torn_pieces_only_kept (lss : Nat) (w : Wr) (keep : Nat → Bool) (p : Wr
   · simp [hk] at hi
     exact ⟨i, hk, by rw [← hi], by rw [← hi]⟩
   · simp [hk] at hi
+
+/-! ### refinement: the flat byte-level model (LBA arithmetic, `Gpt.read` over a device function)
+    refines the record level, so crash atomicity is a theorem about the flat model -/
+
+open Diskfs.Gpt in
+/-- REGIONS: as soon as the disk has 2·p+3 sectors, the five regions `Write` touches lie in this order
+    without overlap — sector 0 ⊇ [446,512), primary header [lss,2·lss), primary array [2·lss,2·lss+16384),
+    backup array [oBA, oBA+16384), backup header [oBH, oBH+lss) (`Layout`: this is where the minimum disk
+    size enters) — and every single flat write changes exactly its own field of the record view -/
+theorem flat_write_one_field (size lss : Nat) (hl : lss = 512 ∨ lss = 4096) (hmin : (2 * (16384 / lss) + 3) * lss ≤ size)
+    (D : Dev) (a b pm : Bytes) (ha : a.length = 16384) (hb : b.length = lss) (hpm : pm.length = 66) :
+    Layout size lss ∧
+    toDisk (applyWr D ⟨oBA size lss, a⟩) size lss = { toDisk D size lss with ba := sectors lss a } ∧
+    toDisk (applyWr D ⟨oBH size lss, b⟩) size lss = { toDisk D size lss with bh := b } ∧
+    toDisk (applyWr D ⟨2 * lss, a⟩) size lss = { toDisk D size lss with pa := sectors lss a } ∧
+    toDisk (applyWr D ⟨lss, b⟩) size lss = { toDisk D size lss with ph := b } ∧
+    toDisk (applyWr D ⟨446, pm⟩) size lss = { toDisk D size lss with mbr := readAt (applyWr D ⟨446, pm⟩) 0 lss } :=
+  have L := layout_of size lss hl hmin
+  ⟨L, toDisk_write_ba L D a ha, toDisk_write_bh L D b hb, toDisk_write_pa L D a ha, toDisk_write_ph L D b hb,
+    toDisk_write_pm L D pm hpm⟩
+
+open Diskfs.Gpt in
+/-- SECTOR SUBSET IS MIX: the in-flight array write with ANY subset `keep` of its sectors applied to the
+    flat device is, at record level, `mix keep new old` of that array and leaves the other four regions alone -/
+theorem sector_subset_is_mix (size lss : Nat) (hl : lss = 512 ∨ lss = 4096) (hmin : (2 * (16384 / lss) + 3) * lss ≤ size)
+    (D : Dev) (a : Bytes) (ha : a.length = 16384) (keep : Nat → Bool) :
+    toDisk (applyWrs D (tornPieces lss ⟨2 * lss, a⟩ keep)) size lss =
+      { toDisk D size lss with pa := mix (fun i => keep i.val) (sectors lss a) (toDisk D size lss).pa } ∧
+    toDisk (applyWrs D (tornPieces lss ⟨oBA size lss, a⟩ keep)) size lss =
+      { toDisk D size lss with ba := mix (fun i => keep i.val) (sectors lss a) (toDisk D size lss).ba } :=
+  have L := layout_of size lss hl hmin
+  ⟨toDisk_torn_pa L D a ha keep, toDisk_torn_ba L D a ha keep⟩
+
+open Diskfs.Gpt in
+/-- a write that fits one sector (both headers, the 66 protective-MBR bytes) is atomic under sector tearing -/
+theorem single_sector_write_atomic (lss : Nat) (w : Wr) (keep : Nat → Bool) (h1 : 0 < w.data.length) (h2 : w.data.length ≤ lss) :
+    tornPieces lss w keep = if keep 0 then [w] else [] :=
+  torn_single lss w keep h1 h2
+
+open Diskfs.Gpt in
+/-- READER REFINEMENT: `Gpt.read` on the flat device — LBA arithmetic, readGPTHeader, loadEntries with its
+    bounds and CRC checks, fallback to the backup at the last LBA on a content error only — equals the
+    record-level reader instantiated with the real decoders (`flatReader`: readHeader, crc of the joined
+    array, decodeArr) on the record view of the device, for every device whose header sectors, if they
+    validate, describe the geometry this library writes -/
+theorem flat_read_refines (c : Cfg) (crc : Bytes → Nat) (d : Dev) (size lss : Nat) (hl : lss = 512 ∨ lss = 4096)
+    (hmin : (2 * (16384 / lss) + 3) * lss ≤ size) (hsz : size < two63)
+    (hP : PStd crc d lss) (hB : BStd crc d size lss) :
+    outOf (Gpt.read c crc d size lss).1 = GptCrash.read (flatReader crc size lss) (toDisk d size lss) :=
+  read_refines c crc d size lss hl hmin hsz hP hB
+
+open Diskfs.Gpt in
+/-- CRASH STATES REFINE: for what the repaired `Write` emits for a fresh table over ANY device `d0`, every
+    flat crash state (k writes in full, the next with any sector subset) is a record-level `Crash` state;
+    the completed device is `NewOk` for the real decoders and itself satisfies the premises the theorem
+    below puts on an old device (so they hold for every table this library wrote) -/
+theorem flat_crash_states_refine (c : Cfg) (hpl : c.pmbrLast = true) (crc : Bytes → Nat) (hcrc : ∀ b, crc b < two32)
+    (d0 : Dev) (t0 : Table) (size : Nat) (ws : List Wr) (t : Table)
+    (hf : Fresh t0) (hl : t0.lss = 512 ∨ t0.lss = 4096) (hg : t0.guid.length = 16) (hsz : size < two63)
+    (hmin : (2 * (16384 / t0.lss) + 3) * t0.lss ≤ size) (hpm : t0.pmbr = true)
+    (hw : write c crc t0 size = .ok (ws, t)) (k : Nat) (keep : Nat → Bool) :
+    NewOk (flatReader crc size t0.lss) (toDisk (applyWrs d0 ws) size t0.lss) ∧
+    PStd crc (applyWrs d0 ws) t0.lss ∧ BStd crc (applyWrs d0 ws) size t0.lss ∧
+    OldOkFlat crc (applyWrs d0 ws) t0.lss ∧
+    Crash false (toDisk d0 size t0.lss) (toDisk (applyWrs d0 ws) size t0.lss)
+      (toDisk (crashDev d0 t0.lss ws k keep) size t0.lss) :=
+  write_crash_setup c hpl crc hcrc d0 t0 size ws t hf hl hg hsz hmin hpm hw k keep
+
+open Diskfs.Gpt in
+/-- C09 ON THE FLAT MODEL (GPT over GPT).  `d0`: any device with a valid primary GPT of this library's
+    geometry (`OldOkFlat`) whose last sector, if it validates as a backup header, describes this library's
+    geometry (`BStd`) — both hold for every device this library's Write produced (`flat_crash_states_refine`).
+    `ws`: the repaired Write (protective MBR last) of a fresh table with a protective MBR on a disk of at
+    least 2·p+3 sectors.  Then for EVERY prefix length `k` and EVERY sector subset `keep` of the write in
+    flight, `Gpt.read` of the crash device succeeds and returns exactly the partition list read from `d0`
+    or exactly the one read after the completed write — which is read from the primary copy.
+    Explicit premises: sector atomicity (in `crashDev`), `NoCrcCollisionFlat` on the two arrays. -/
+theorem gpt_crash_atomic_flat (c : Cfg) (hpl : c.pmbrLast = true) (crc : Bytes → Nat) (hcrc : ∀ b, crc b < two32)
+    (d0 : Dev) (t0 : Table) (size : Nat) (ws : List Wr) (t : Table)
+    (hf : Fresh t0) (hl : t0.lss = 512 ∨ t0.lss = 4096) (hg : t0.guid.length = 16) (hsz : size < two63)
+    (hmin : (2 * (16384 / t0.lss) + 3) * t0.lss ≤ size) (hpm : t0.pmbr = true)
+    (hw : write c crc t0 size = .ok (ws, t))
+    (hOld : OldOkFlat crc d0 t0.lss) (hOldB : BStd crc d0 size t0.lss)
+    (hColl : NoCrcCollisionFlat crc t0.lss (readAt d0 (2 * t0.lss) 16384) (readAt (applyWrs d0 ws) (2 * t0.lss) 16384))
+    (k : Nat) (keep : Nat → Bool) :
+    ∃ po pn, outOf (Gpt.read c crc d0 size t0.lss).1 = .ok po false ∧
+      outOf (Gpt.read c crc (applyWrs d0 ws) size t0.lss).1 = .ok pn false ∧
+      ((outOf (Gpt.read c crc (crashDev d0 t0.lss ws k keep) size t0.lss).1).parts? = some po ∨
+       (outOf (Gpt.read c crc (crashDev d0 t0.lss ws k keep) size t0.lss).1).parts? = some pn) :=
+  crash_atomic_flat c hpl crc hcrc d0 t0 size ws t hf hl hg hsz hmin hpm hw hOld hOldB hColl k keep
+
+open Diskfs.Gpt in
+/-- first-ever write on the flat model (old = no table: neither LBA 1 nor the last LBA of `d0` passes
+    readGPTHeader — blank, MBR-partitioned, garbage): every crash state reads as an error, as `d0` did,
+    or as exactly the partition list of the completed write -/
+theorem blank_old_flat (c : Cfg) (hpl : c.pmbrLast = true) (crc : Bytes → Nat) (hcrc : ∀ b, crc b < two32)
+    (d0 : Dev) (t0 : Table) (size : Nat) (ws : List Wr) (t : Table)
+    (hf : Fresh t0) (hl : t0.lss = 512 ∨ t0.lss = 4096) (hg : t0.guid.length = 16) (hsz : size < two63)
+    (hmin : (2 * (16384 / t0.lss) + 3) * t0.lss ≤ size) (hpm : t0.pmbr = true)
+    (hw : write c crc t0 size = .ok (ws, t))
+    (hNoP : ∀ h, readHeader crc (readAt d0 t0.lss t0.lss) ≠ .ok h)
+    (hNoB : ∀ h, readHeader crc (readAt d0 (oBH size t0.lss) t0.lss) ≠ .ok h)
+    (k : Nat) (keep : Nat → Bool) :
+    ∃ pn, outOf (Gpt.read c crc d0 size t0.lss).1 = .err ∧
+      outOf (Gpt.read c crc (applyWrs d0 ws) size t0.lss).1 = .ok pn false ∧
+      (outOf (Gpt.read c crc (crashDev d0 t0.lss ws k keep) size t0.lss).1 = .err ∨
+       (outOf (Gpt.read c crc (crashDev d0 t0.lss ws k keep) size t0.lss).1).parts? = some pn) :=
+  GptCrash.blank_old_flat c hpl crc hcrc d0 t0 size ws t hf hl hg hsz hmin hpm hw hNoP hNoB k keep
+
+open Diskfs.Gpt in
+/-- partition.Read on the flat device (gpt.Read, then mbr.Read of sector 0 if that fails) equals the
+    record-level `partRead` instantiated with the real decoders (`flatReader`, `mbrViewFlat` = mbr.Read on
+    the sector-0 content); repaired reader (entry-array bound check ⇒ gpt.Read is panic-free) -/
+theorem flat_partread_refines (c : Cfg) (hab : c.arrayBounded = true) (crc : Bytes → Nat) (d : Dev) (size lss : Nat)
+    (hl : lss = 512 ∨ lss = 4096) (hmin : (2 * (16384 / lss) + 3) * lss ≤ size) (hsz : size < two63)
+    (hP : PStd crc d lss) (hB : BStd crc d size lss) :
+    outP (PartTable.read c crc d size lss).1 =
+      partRead (flatReader crc size lss) mbrViewFlat (toDisk d size lss) :=
+  partread_refines c hab crc d size lss hl hmin hsz hP hB
+
+open Diskfs.Gpt in
+/-- first-ever write seen through partition.Read ON THE FLAT MODEL (repaired order, protective MBR last):
+    on a device without a valid GPT header at LBA 1 or at the last LBA — blank, MBR-partitioned, garbage —
+    every crash state of the repaired Write reads through partition.Read exactly as `d0` did (no table, or
+    the old MBR table, decoded by the real mbr.Read) or as exactly the new GPT's partition list -/
+theorem first_write_atomic_flat (c : Cfg) (hpl : c.pmbrLast = true) (hab : c.arrayBounded = true)
+    (crc : Bytes → Nat) (hcrc : ∀ b, crc b < two32)
+    (d0 : Dev) (t0 : Table) (size : Nat) (ws : List Wr) (t : Table)
+    (hf : Fresh t0) (hl : t0.lss = 512 ∨ t0.lss = 4096) (hg : t0.guid.length = 16) (hsz : size < two63)
+    (hmin : (2 * (16384 / t0.lss) + 3) * t0.lss ≤ size) (hpm : t0.pmbr = true)
+    (hw : write c crc t0 size = .ok (ws, t))
+    (hNoP : ∀ h, readHeader crc (readAt d0 t0.lss t0.lss) ≠ .ok h)
+    (hNoB : ∀ h, readHeader crc (readAt d0 (oBH size t0.lss) t0.lss) ≠ .ok h)
+    (k : Nat) (keep : Nat → Bool) :
+    ∃ pn, outP (PartTable.read c crc (applyWrs d0 ws) size t0.lss).1 = .gpt pn ∧
+      (outP (PartTable.read c crc (crashDev d0 t0.lss ws k keep) size t0.lss).1 =
+          outP (PartTable.read c crc d0 size t0.lss).1 ∨
+       outP (PartTable.read c crc (crashDev d0 t0.lss ws k keep) size t0.lss).1 = .gpt pn) :=
+  GptCrash.first_write_atomic_flat c hpl hab crc hcrc d0 t0 size ws t hf hl hg hsz hmin hpm hw hNoP hNoB k keep
+
+-- non-vacuity of the flat theorems: the repaired Write accepts a concrete fresh table with a protective MBR
+-- on a disk of the minimum size; a blank device satisfies the premises of `blank_old_flat`; and
+-- `flat_crash_states_refine` shows OldOkFlat / BStd hold for every device this Write produced
+set_option maxRecDepth 100000 in
+example : (Diskfs.Gpt.write Diskfs.Gpt.Cfg.fixed (fun _ => 0)
+    { parts := [{ index := 2, start := 34, end_ := 34, size := 0, typ := List.replicate 16 7, guid := List.replicate 16 9,
+                  attrs := 0, name := [0x61] }], lss := 512, guid := List.replicate 16 3, pmbr := true }
+    (67 * 512)).isOk = true ∧ Diskfs.Gpt.Cfg.fixed.pmbrLast = true := by decide
+set_option maxRecDepth 100000 in
+example : ∀ h, Diskfs.Gpt.readHeader (fun _ => 0) (readAt (fun _ => 0) 512 512) ≠ .ok h := by
+  intro h hh
+  have : (Diskfs.Gpt.readHeader (fun _ => 0) (readAt (fun _ => 0) 512 512)).isOk = false := by decide
+  rw [hh] at this
+  simp [Diskfs.Gpt.Res.isOk] at this
 
 /-- non-vacuity of the hypotheses: a concrete reader / old / new triple satisfying OldOk, NewOk, NoCrcCollision -/
 example : ∃ (R : Reader Nat Nat 1) (old new : Disk Nat 1), OldOk R old ∧ NewOk R new ∧ NoCrcCollision R old new := by
